@@ -51,7 +51,9 @@ func (c *Caser) Identifierize(s string) string {
 
 	rIdent := []rune(ident)
 	if len(rIdent) > 0 {
-		if !unicode.IsLetter(rIdent[0]) || isNotCaseSensitiveLetter(rIdent[0]) {
+		// Exported Go identifiers start with an upper-case letter; whatever could not be
+		// capitalized (digits, caseless letters, letters without an upper-case form) is prefixed.
+		if !unicode.IsUpper(rIdent[0]) {
 			ident = "A" + ident
 		}
 	}
@@ -115,7 +117,7 @@ func splitIdentifierByCaseAndSeparators(s string) []string {
 		case unicode.IsUpper(r):
 			nextState = stateUpper
 
-		case unicode.IsNumber(r):
+		case unicode.IsDigit(r): // Only decimal digits are allowed in Go identifiers.
 			nextState = stateNumber
 
 		case !unicode.IsLetter(r): // Non-letter characters.
